@@ -119,7 +119,10 @@ pub struct DirLedger {
     pub written: Vec<u8>,
     /// bytes returned by reads, in order
     pub read: Vec<u8>,
+    /// successful writes that accepted at least one byte (each is one Push frame / one unit of credit)
     pub writes_ok: u32,
+    /// all successful write calls, including zero-length ones
+    pub write_calls_ok: u32,
     pub shutdown: bool,
     pub eof: bool,
     pub write_err: Option<String>,
@@ -246,7 +249,11 @@ async fn do_write<S: tokio::io::AsyncWrite + Unpin>(s: &mut S, obs: &ObsRef, tag
             let n2 = n.min(total);
             let d = o.dir(tag, wdir);
             d.written.extend_from_slice(&data[..n2]);
-            d.writes_ok += 1;
+            // a zero-length write transmits nothing and takes no credit
+            if n2 > 0 {
+                d.writes_ok += 1;
+            }
+            d.write_calls_ok += 1;
             o.ev(Ev::Wrote { tag, dir: wdir, asked: sizes.to_vec(), res: Ok(n) });
             true
         }
